@@ -4,7 +4,8 @@ set -u
 NAME="$1"; TIER="$2"; shift 2
 cd /repo || exit 2
 if [ -n "$(git status --porcelain -- src)" ]; then echo "/repo/src not clean"; exit 2; fi
-git apply /verif/seeded/$NAME/patch.diff || { echo "patch does not apply"; exit 3; }
+git apply /verif/seeded/$NAME/patch.diff 2>/dev/null || git apply --3way /verif/seeded/$NAME/patch.diff >/dev/null 2>&1 || { echo "$NAME: patch does not apply"; git reset -q --hard HEAD; exit 3; }
+if git diff --cached --name-only | grep -q . && git diff --cached | grep -q "^+<<<<<<<"; then echo "$NAME: patch conflicts"; git reset -q --hard HEAD; exit 3; fi
 RES=""
 mkdir -p /tmp/seedrun-$NAME && cp /verif/known_findings.json /tmp/seedrun-$NAME/
 for ID in "$@"; do
@@ -12,6 +13,6 @@ for ID in "$@"; do
   SIG=$(echo "$OUT" | grep -m2 "signature=" | sed -E 's/.*signature=([^ ]+).*/\1/' | paste -sd,)
   RES="$RES $ID:rc=$RC[$SIG]"
 done
-git checkout -- . 
+git reset -q --hard HEAD
 rm -rf /tmp/seedrun-$NAME
 echo "$NAME:$RES"
